@@ -94,7 +94,9 @@ impl Out<'_> {
     fn ok(&mut self, ty: &str, form: &str, id: &str, class: &str, nontrivial: bool, wire: impl FnOnce() -> String) {
         let key = fnv64(format!("{ty}/{form}/{id}").as_bytes());
         self.rep.case(key, &format!("{ty}/{form}:{class}"), nontrivial);
-        if self.rep.wants_sample() && key % 193 == 7 {
+        // a few samples, at most one per type and worker
+        self.rep.sample_cap = 12;
+        if self.rep.wants_sample() && key % 97 == 7 && !self.rep.samples.iter().any(|s| s["case"]["type"] == ty) {
             let c = self.case_json(ty, form, id);
             let w = vals::short(wire());
             self.rep.sample(|| json!({"case": c, "wire": w, "result": class}));
@@ -529,7 +531,7 @@ fn run_unit(unit: &Unit, seed: u64, only: Option<(String, String, String)>, rep:
 }
 
 fn squares(tier: Tier) -> Vec<SquareId> {
-    let widths: &[usize] = tier.pick(&[2, 4, 8, 16], &[2, 4, 8, 16, 32, 64, 128]);
+    let widths: &[usize] = tier.pick(&[2, 4, 8, 16], &[2, 4, 8, 16, 32, 64, 128, 256]);
     let mut out = vec![];
     for w in widths {
         for layout in 0..3 {
@@ -641,7 +643,7 @@ fn main() {
         rep,
         Spec {
             rule: "E1 over deterministic families of valid values, every value through every wire form of its type (one evaluation = one (type, form, value): encode, decode, compare, re-encode, compare). \
-Families: namespaces (7 named constants, v0 zero/max, 80 single-bit and 20 single-byte v0 ids, all 256 v255 ids, 16 seeded); extended headers from the deterministic multi-validator chain builder (one dimension at a time over heights 1..i64::MAX, times with nanosecond corners, 1..7 validators with commit/nil/absent votes, rounds, DAH widths 2..1024 synthetic and real, app versions 1..7, chain ids, absent optional hashes, signed proposer priorities, app-hash lengths 0..48; thorough adds their products) plus ExtendedHeaderGenerator headers; DAHs of every structured square (extended widths 2..16 quick, 2..128 thorough, 3 namespace layouts; shares / namespace proofs / share proofs up to width 8 quick, 32 thorough; fraud proofs up to 8 / 64), of the empty square and synthetic ones up to width 1024; every share of those squares (original and parity quadrants) and of every blob; blobs of boundary lengths x share version 0/1 x index None/Some x 4 namespaces x 3 fills; every complete-namespace proof (presence / absence / absence outside the root range) of every row and column for every probe namespace and every leaf-range proof (all ranges up to width 8, single leaves and the full range above), with and without ignore_max_ns; row proofs of every row range (merkle proofs inside and standalone for 1..9/17 leaves); share proofs of every namespace run, every single share and every sub-range (self-checked with verify); bad-encoding fraud proofs decoded from messages assembled from the real trees (both axes, indexes, presence masks, proof-axis mixes) plus corrupt_eds ones; BlockRanges for every well-formed base-3 code (absent/start/continue) over 10 (quick) / 12 (thorough) heights at 4 offsets incl. one ending at u64::MAX (covers all 2^n merged sets and every split into adjacent ranges). \
+Families: namespaces (7 named constants, v0 zero/max, 80 single-bit and 20 single-byte v0 ids, all 256 v255 ids, 16 seeded); extended headers from the deterministic multi-validator chain builder (one dimension at a time over heights 1..i64::MAX, times with nanosecond corners, 1..7 validators with commit/nil/absent votes, rounds, DAH widths 2..1024 synthetic and real, app versions 1..7, chain ids, absent optional hashes, signed proposer priorities, app-hash lengths 0..48; thorough adds their products) plus ExtendedHeaderGenerator headers; DAHs of every structured square (extended widths 2..16 quick, 2..256 thorough, 3 namespace layouts; shares / namespace proofs / share proofs up to width 8 quick, 32 thorough; fraud proofs up to 8 / 64), of the empty square and synthetic ones up to width 1024; every share of those squares (original and parity quadrants) and of every blob; blobs of boundary lengths x share version 0/1 x index None/Some x 4 namespaces x 3 fills; every complete-namespace proof (presence / absence / absence outside the root range) of every row and column for every probe namespace and every leaf-range proof (all ranges up to width 8, single leaves and the full range above), with and without ignore_max_ns; row proofs of every row range (merkle proofs inside and standalone for 1..9/17 leaves); share proofs of every namespace run, every single share and every sub-range (self-checked with verify); bad-encoding fraud proofs decoded from messages assembled from the real trees (both axes, indexes, presence masks, proof-axis mixes) plus corrupt_eds ones; BlockRanges for every well-formed base-3 code (absent/start/continue) over 10 (quick) / 12 (thorough) heights at 4 offsets incl. one ending at u64::MAX (covers all 2^n merged sets and every split into adjacent ranges). \
 distinct = (type, form, value id); non-trivial = all",
             assumptions: &[
                 "values are valid values of their types: built by the library constructors or self-checked with validate()/verify(); Option<Hash> fields are None or Some(Sha256), never Some(Hash::None) (tendermint-rs encodes both as empty bytes)",
